@@ -53,7 +53,7 @@ func init() {
 	props["C01"] = propSpec{Checker: func() Checker { return chkC01{} }, Assume: common,
 		Runs: []runSpec{{"S-escrow", 7, 9, nil}, {"S-leased", 7, 9, nil}, {"S-life", 6, 8, nil}, {"S-collide", 2, 3, nil}}}
 	props["C02"] = propSpec{Checker: func() Checker { return chkC02{} }, Assume: common,
-		Runs: []runSpec{{Scenario: "S-grid", Grid: gridHistories}, {"S-meter", 6, 8, nil}, {"S-escrow", 7, 9, nil}, {"S-leased", 7, 9, nil}}}
+		Runs: []runSpec{{"S-collide", 2, 3, nil}, {"S-meter", 6, 8, nil}, {"S-escrow", 6, 8, nil}, {"S-leased", 6, 8, nil}, {Scenario: "S-grid", Grid: gridHistories}}}
 	props["C06"] = propSpec{Checker: func() Checker { return chkC06{} }, Assume: []string{
 		"confinement is checked on the message-service path; the signature/ante path is checked separately through real signed DeliverTx (part ante-matrix)",
 		"bounded: S-collide (7 deployments with dseq 1,12,256,257,65536 over two owners, leases, bids) to the stated depth, plus S-life"},
@@ -74,7 +74,7 @@ func init() {
 			return extraResult{Name: "ante-matrix", Evals: int64(len(cases)), Samples: smp, Viols: viols,
 				Info: map[string]interface{}{"deliver_tx_cases": len(cases), "accepted": acc, "rejected": rej}}, err
 		},
-		Runs: []runSpec{{"S-collide", 3, 4, nil}, {"S-life", 5, 7, nil}}}
+		Runs: []runSpec{{"S-collide", 3, 4, nil}, {"S-life", 5, 7, nil}, {"S-leased", 6, 8, nil}}}
 	props["C17"] = propSpec{Checker: func() Checker { return chkC17{} }, Assume: []string{
 		"bounded: all create/revoke sequences over 2 owners x 7 serials (0,1,255,256,257,2^64,2^159) plus two create requests naming another account, to the stated depth",
 		"certificates with serial 0 are produced by patching DER (the chain never verifies the self-signature)"},
@@ -140,7 +140,7 @@ func main() {
 		os.Exit(2)
 	}
 	if *budget == 0 {
-		*budget = 4 * time.Minute
+		*budget = 8 * time.Minute
 		if *tier == "thorough" {
 			*budget = 40 * time.Minute
 		}
